@@ -63,6 +63,9 @@ func (x *Exec) execInstr(fr *Frame, b *ssa.BasicBlock, ins ssa.Instruction, st *
 		loc := &Loc{Prefix: canonPrefix(pt), Root: r, T: pt}
 		x.zeroStore(st, loc)
 		fr.env[i] = Value{T: i.Type(), K: KPtr, Loc: loc}
+		if _, ok := pt.Underlying().(*types.Struct); ok {
+			st.H[isTypeComp(pt)] = Store(x.isType(st, pt), r, TTrue)
+		}
 		if typeKey(pt) == "big.Int" && x.m() == ModeInt {
 			x.bigSet(st, fr.env[i], IntLit(0)) // new(big.Int) is zero
 		}
@@ -166,6 +169,10 @@ func (x *Exec) execInstr(fr *Frame, b *ssa.BasicBlock, ins ssa.Instruction, st *
 		r := x.newRef(st, fmt.Sprintf("f%d.%s", fr.id, i.Name()))
 		iv := Value{T: i.Type(), K: KIface, X: r, Dyn: &v}
 		x.ifaceFacts(st, iv, v)
+		if v.K == KPtr && v.isCanonical() {
+			// the pointer an interface value wraps: payload(iface)
+			x.vc.assume(Implies(st.Reach, Eq(x.payload(r), v.Loc.Root)))
+		}
 		fr.env[i] = iv
 	case *ssa.ChangeInterface:
 		v := x.get(fr, st, i.X)
